@@ -50,6 +50,10 @@ def _get_all_lindblad_noise_operators(
     ]
 
 
+# relative times closer than this are the same time (pulser.backend.observable.TIME_TOLERANCE)
+_TIME_TOLERANCE = 1e-12
+
+
 def _unique_observable_times(
     config: EmulationConfig,
 ) -> set[float]:
@@ -81,12 +85,16 @@ def _get_target_times(
     """
     duration = float(sequence.get_duration(include_fall_time=config.with_modulation))
     n_steps = math.floor(duration / dt)
-    evolution_times_rel: set[float] = {
-        i * float(dt) / duration for i in range(n_steps + 1)
-    }
-    evolution_times_rel.add(1.0)
-    target_times_rel = evolution_times_rel | _unique_observable_times(config)
-    target_times: list[float] = sorted({t * duration for t in target_times_rel})
+    times: set[float] = {i * float(dt) for i in range(n_steps + 1)}
+    times |= {t * duration for t in _unique_observable_times(config)}
+    # Times closer than the tolerance are the same time (e.g. 3 * 0.1 and 0.3):
+    # keep one of them, and keep both ends of the sequence exact.
+    tolerance = _TIME_TOLERANCE * duration
+    target_times: list[float] = [0.0]
+    for t in sorted(times):
+        if t - target_times[-1] > tolerance and duration - t > tolerance:
+            target_times.append(t)
+    target_times.append(duration)
     return target_times
 
 
